@@ -86,3 +86,19 @@ package bundler
 // visited in source-index order, which depends on load order, so among imports at the SAME depth the choice must not be
 // "whichever was seen first": the decision to (re)record a parent reads the import record index as a tie-break.
 //@ decides tla-parent-choice-has-a-tie-break C08: func=(*scanner).recursivelyValidateTLA ; in=bundler ; site=store tlaCheck.parent ; when=*.SourceIndex ; scenario=tla_chain_order ; must=tlaCheck.importRecordIndex
+
+// C17 ("outputs lie inside the output directory whenever the configured name templates contain no parent-directory
+// segments"): the value substituted for [name] is itself never a parent-directory (or current-directory) segment. A source
+// file called `...txt` has the base name `..` once its extension is stripped; with `--asset-names=[name]/[hash]` or
+// `--entry-names=[name]/index` that would climb out of the output directory without any `..` in the template.
+//@ func PathRelativeToOutbase
+//@   arith int
+//@   nooverflow off
+//@   prop C17
+//@   opt scenario dotdot_basename_escape
+//@   ensures name-is-not-a-dot-segment: baseName != ".." && baseName != "."
+
+//@ func avoidDotSegmentName
+//@   arith int
+//@   prop C17
+//@   ensures not-a-dot-segment: result != ".." && result != "."
